@@ -49,6 +49,12 @@ claim("C06",
       GEN, "DESIGN.md 5/C06")
 
 
+claim("C07",
+      "Convert.tla states zerv's canonical SemVer shape and its PEP 440 image as the property gives them, with numerals of any size; TLC checks both texts against the grammar modules and prints every version in the bound; the harness runs `zerv render` in the four directions and checks: SemVer unchanged, the stated PEP 440 image, back to the original, every rendering a fixed point of re-conversion, and for numerals beyond u32/u64 rejection or preservation of every numeral. Arbitrary PEP 440 / SemVer / label-heavy inputs are converted and re-converted and judged by Trace_Convert with the grammar and order modules.",
+      "Exhaustive over 16 shapes x small numbers in all slots x labels x build ids, boundary numerals in one slot at a time; random beyond.",
+      GEN, "DESIGN.md 5/C07")
+
+
 def main():
     m = {
         "version": 1,
